@@ -19,14 +19,14 @@ RULE = (
     "multi-exon [a,b)+[c,d) (b<=c, touching included), 3-part multi-exon and 3-part origin-spanning (L<=7 quick "
     "/ <=9 thorough), forward and reverse strand (reverse = Biopython part order reversed). The same shapes on "
     "'anchor grid' records (L=100,101 quick; +12,13,1000,1000001 thorough) with coordinates from "
-    "{0,1,L/4,L/2-1,L/2,L/2+1,3L/4,L-1,L} (quick: 3-part shapes and multi-exon x multi-exon pairs on L=100 "
+    "{0,1,L/4,L/2-1,L/2,L/2+1,3L/4,L-1,L} (quick: every 2nd 3-part shape and multi-exon x multi-exon pairs on L=100 "
     "only). Families: (pair/dist) all unordered pairs incl. multi-exon members "
-    "for L<=8 (thorough <=12) and grids, for larger L all pairs of contiguous locations plus multi-exon x "
+    "for L<=7 (thorough <=12) and grids, for larger L all pairs of contiguous locations plus multi-exon x "
     "contiguous; 3-part x contiguous; overlap and containment in both directions, distance on line and ring in "
     "both argument orders, also through Record (L<=6). (offset) every offset -L-1..L+1 with and without wrap "
     "point (grid: offsets putting each part end on each anchor). (extend) every distance 0..L+1 on linear and "
     "circular records (grid: distances around every coincidence). (connect) every multiset of 1, 2 contiguous "
-    "locations, of 3 (L<=6 quick / <=10 thorough, and the 7-anchor grid {0,1,L/2-1,L/2,L/2+1,L-1,L}) and of 4 "
+    "locations, of 3 (L<=6 quick / <=10 thorough, and the 6-anchor grid {0,1,L/2,L/2+1,L-1,L}) and of 4 "
     "(L<=3 / <=5 in every order; quick L=4, thorough L=6 with rotations+reflections only) in EVERY argument order "
     "plus idempotence of every distinct result; on a "
     "line every pair and every 4th triple; a fixed stride sample of pairs with multi-exon members. (string) text "
@@ -321,7 +321,7 @@ def _points(length: int, grid: bool) -> list[int]:
     half = length // 2
     raw = {0, 1, length // 4, half - 1, half, half + 1, (3 * length) // 4, length - 1, length}
     if grid == "small":
-        raw = {0, 1, half - 1, half, half + 1, length - 1, length}
+        raw = {0, 1, half, half + 1, length - 1, length}
     return sorted(p for p in raw if 0 <= p <= length)
 
 
@@ -931,7 +931,7 @@ FINDING_CLASSES: dict[str, Callable[[str, Any], bool]] = {
 
 def _bounds(tier: str) -> dict:
     if tier == "quick":
-        return {"L": 10, "pairs": 8, "three": 7, "triples": 6, "quads": 3, "quads_rot": 4,
+        return {"L": 10, "pairs": 7, "three": 7, "triples": 6, "quads": 3, "quads_rot": 4,
                 "grids": [100, 101], "grids3": [100], "full_pair_grids": [100], "order": 5, "random_s": 0}
     return {"L": 14, "pairs": 12, "three": 9, "triples": 10, "quads": 5, "quads_rot": 6,
             "grids": [12, 13, 100, 101, 1000, 1000001], "grids3": [12, 13, 100, 101],
@@ -945,6 +945,7 @@ def _units(tier: str) -> list[dict]:
     sizes = [(length, False) for length in range(1, bound["L"] + 1)] + [(g, True) for g in bound["grids"]]
     for length, grid in sizes:
         base = {"L": length, "grid": grid}
+        stride3 = 2 if (grid and tier == "quick") else 1     # quick: every 2nd 3-part shape on the grids
         kind = "pairset" if (grid and length in bound["full_pair_grids"]) or \
             (not grid and length <= bound["pairs"]) else "arcpairs"
         n_pair = len(_locs(kind, length, grid))
@@ -955,7 +956,8 @@ def _units(tier: str) -> list[dict]:
         if with_three:
             n_three = len(_locs("three", length, grid))
             for i in range(0, n_three, 16):
-                units.append({**base, "fam": "pair3", "i": i, "cost": 200 * n_arcs * min(16, n_three - i)})
+                units.append({**base, "fam": "pair3", "i": i, "stride": stride3,
+                              "cost": 200 * n_arcs * min(16, n_three - i) // stride3})
         if kind == "arcpairs":
             n_multi = len(_locs("multi2alt", length, grid))
             for i in range(0, n_multi, 16):
@@ -970,8 +972,10 @@ def _units(tier: str) -> list[dict]:
         if with_three:
             n3 = len(_locs("single3", length, grid))
             for i in range(0, n3, 32):
-                units.append({**base, "fam": "offset3", "i": i, "n": 32, "cost": 150 * 32 * per_offset})
-                units.append({**base, "fam": "extend3", "i": i, "n": 32, "cost": 200 * 32 * per_extend})
+                units.append({**base, "fam": "offset3", "i": i, "n": 32, "stride": stride3,
+                              "cost": 150 * 32 * per_offset // stride3})
+                units.append({**base, "fam": "extend3", "i": i, "n": 32, "stride": stride3,
+                              "cost": 200 * 32 * per_extend // stride3})
         for i in range(n_arcs):
             units.append({**base, "fam": "connect2", "i": i, "cost": 600 * (n_arcs - i)})
         if grid or length <= bound["triples"]:
@@ -1032,6 +1036,7 @@ def _cases_of(unit: dict) -> Iterator[dict]:
                 yield {"fn": "dist", "L": length, "wrap": False, "a": a, "b": b}
     elif fam in ("pair3", "pairmulti"):
         threes = _locs("three" if fam == "pair3" else "multi2alt", length, grid)[unit["i"]:unit["i"] + 16]
+        threes = threes[::unit.get("stride", 1)]
         arcs = _locs("arcs", length, grid)
         for a in threes:
             for b in arcs + threes[:2]:
@@ -1041,14 +1046,14 @@ def _cases_of(unit: dict) -> Iterator[dict]:
                     yield {"fn": "dist", "L": length, "wrap": False, "a": a, "b": b}
     elif fam in ("offset", "offset3"):
         locs = _locs("single" if fam == "offset" else "single3", length, grid)[unit["i"]:unit["i"] + unit["n"]]
-        for spec in locs:
+        for spec in locs[::unit.get("stride", 1)]:
             for offset in _offsets(spec, length, grid):
                 yield {"fn": "offset", "L": length, "wrap": True, "loc": spec, "off": offset}
                 if not _is_wrap(spec) and min(p[0] for p in spec) + offset >= 0:
                     yield {"fn": "offset", "L": length, "wrap": False, "loc": spec, "off": offset}
     elif fam in ("extend", "extend3"):
         locs = _locs("single" if fam == "extend" else "single3", length, grid)[unit["i"]:unit["i"] + unit["n"]]
-        for spec in locs:
+        for spec in locs[::unit.get("stride", 1)]:
             for distance in _distances(spec, length, grid):
                 yield {"fn": "extend", "L": length, "circ": True, "loc": spec, "d": distance}
                 if not _is_wrap(spec):
